@@ -70,7 +70,7 @@ class Result:
 
 
 class CompileEngine:
-    def __init__(self, prop, header="#![allow(dead_code, unused_imports, unused_variables, unused_mut, unused_parens, non_snake_case, non_camel_case_types, non_upper_case_globals, unreachable_patterns, unreachable_code, clippy::all)]\n",
+    def __init__(self, prop, header="#![allow(unused, dead_code, unused_imports, unused_variables, unused_mut, unused_parens, non_snake_case, non_camel_case_types, non_upper_case_globals, unreachable_patterns, unreachable_code, clippy::all)]\n",
                  prelude="", toolchain=None, features=("full",), default_features=True, mode="build",
                  per_bin=250, crate_attrs="", keep=False, extra_deps=""):
         self.prop = prop
